@@ -682,6 +682,19 @@ func executePlannedSelection(eCtx *executionContext, sp *selectionPlan, source i
 		if !ok {
 			continue
 		}
+		if path == nil && eCtx.plan != nil && eCtx.plan.isMutation {
+			// Top-level mutation fields run serially: force everything this
+			// field deferred before the next field's resolver starts.
+			if f, ok := resolved.(func() interface{}); ok {
+				resolved = f()
+			}
+			switch val := resolved.(type) {
+			case map[string]interface{}:
+				dethunkMapDepthFirst(val)
+			case []interface{}:
+				dethunkListDepthFirst(val)
+			}
+		}
 		finalResults[fp.responseKey] = resolved
 	}
 	return finalResults
